@@ -23,7 +23,7 @@ from .oracles import V
 
 SOUP_POOL = [
     u"Feature: soup", u"Funktionalität: suppe", u"Fonctionnalité: soupe", u"# language: de", u"# language: fr",
-    u"# language: en", u"# language: zz", u"#language:de", u"Rule: r", u"Regel: r", u"Background:", u"Grundlage: g",
+    u"# language: en", u"# language: zz", u"# language: {zz}", u"@t {x} %s", u"#language:de", u"Rule: r", u"Regel: r", u"Background:", u"Grundlage: g",
     u"Scenario: s", u"Szenario: s", u"Scénario: s", u"Scenario Outline: o <a>", u"Szenariogrundriss: o",
     u"Examples: e", u"Beispiele: b", u"Scenarios:", u"Example: x", u"Given a step", u"When b", u"Then c",
     u"And d", u"But e", u"* f", u"Angenommen x", u"Wenn y", u"Dann z", u"Und u", u"Aber a",
@@ -141,6 +141,8 @@ def enumerate_faults(feat, text, lm, rng):
     for hid in header_ids:
         at = lm[hid]
         yield ("cat:malformed-tag", at, insert(at, u"  @good bad-token"), at)
+        # (faulty user text that ends up quoted in the error message: braces, percent signs)
+        yield ("cat:malformed-tag-braces", at, insert(at, u"  @good {bad} %s %(x)d"), at)
     # second background
     for key, v in lm.items():
         if key.endswith(".BG"):
